@@ -311,6 +311,20 @@ def check(prog, run):
                    "`%s` is evaluated with a %s node (via %s), which has no attribute `%s`: AttributeError escapes validation"
                    % (norm_stmt(node), " / ".join(missing), " -> ".join(chain), attr))
 
+    # ---- N2 typed attribute chains on AST nodes
+    from .. import typedrule
+
+    def seed(eng):
+        for c in prog.subclasses(disp):
+            for n, m in c.methods.items():
+                if n in h2k:
+                    ps = [x for x in m.params if x != prog.self_name(m)]
+                    if ps:
+                        eng.param_types[(m.key, ps[0])] = ("node", eng.expand(h2k[n]))
+    typedrule.run_rule(prog, run, "N2", "validation/**, utilities/** and execution/** (handler parameters typed by the dispatch table)",
+                       "an AttributeError/TypeError would leave validation or execution as an internal exception",
+                       ["py_gql.validation", "py_gql.utilities", "py_gql.execution"], 120, seed)
+
     r = run.rule("A1", "every local variable read in execution/** and utilities/** functions is assigned on every path reaching "
                        "the read (definite assignment over the CFG incl. exception edges)", 100)
     mods = [m for m in prog.modules.values() if m.name.startswith("py_gql.execution") or m.name.startswith("py_gql.utilities")]
